@@ -413,7 +413,9 @@ def run_case(case, rec):
         prot = case["override"]
     if len(calls) != 1:
         fails.append(("C09|function-calls!=1|%s" % prot, "%s: function ran %d times" % (where, len(calls))))
-    if RET_TOKEN.encode() in out_bytes:
+    # (Hypothesis reuses string constants of this module: a generated message or detail may
+    # itself be the token, which then rightly is in the reply)
+    if RET_TOKEN.encode() in out_bytes and RET_TOKEN not in json.dumps(raised, default=str):
         fails.append(("C09|return-value-sent|%s" % prot, "%s: the return value is in the reply" % where))
     try:
         code, msg, det = decode_fault(prot, out_bytes)
